@@ -1,4 +1,5 @@
 import PycModel.Proofs.DeclParse
+import PycModel.Proofs.Params
 import PycModel.Proofs.StmtSkel
 /-!
 # Function bodies with declarations, function definitions, translation units
@@ -16,7 +17,7 @@ function body).  The end result is `parse_translation_unit`: `parseCore`, the mo
 -/
 namespace PycModel.TransUnit
 open PycModel PycModel.View PycModel.OperandId PycModel.FullExpr PycModel.TypeModify PycModel.DeclSkel PycModel.BuildDecl
-  PycModel.DeclParse PycModel.StmtSkel
+  PycModel.DeclParse PycModel.StmtSkel PycModel.Params
 
 variable {env : Env}
 
@@ -494,30 +495,152 @@ theorem extDcl_ok (dc : Dcl) (hwf : WFDcl dc) (hty : ∀ x ∈ dc.names, env.ty 
       Bool.not_true, pDeclSpecs, h1', requireSpec, Bool.false_and, StmtSkel.pur, mark, hscan, hi1, hreset, hnid, h5', horm, h8,
       Option.isSome_some, hinit, hB, hC, hD, Dcl.vals, htn, Dcl.dis, List.map_cons]
 
+/-! ## function definitions with parameters -/
+
+/-- `specifiers name ( parameters ) compound-body` -/
+structure FDefP where
+  specs : List Tk
+  fd : FD
+  body : List Item
+
+namespace FDefP
+def flat (f : FDefP) : List Tk := f.specs ++ (f.fd.flat ++ bodyFlat f.body)
+def ntoks (f : FDefP) : Nat := f.specs.length + f.fd.ntoks + itemsNtoks f.body + 2
+def fuel (f : FDefP) : Nat := max (f.specs.length + 1) (max (f.fd.fuel + 4) (itemsFuel f.body + 2)) + 2
+def vals (n : Nat) (f : FDefP) : List Val :=
+  match typeNames n f.specs with
+  | [] => []
+  | p0 :: names =>
+    [PycModel.mk .FuncDef (f.fd.di (n + f.specs.length)).coord
+      [declOut (foldSpec n {} f.specs) p0.2 (specNames p0 names) (f.fd.di (n + f.specs.length)), .none,
+       bodyVal (n + f.specs.length + f.fd.ntoks) f.body]]
+/-- all names the definition declares: the function, its parameters, the block items -/
+def names (f : FDefP) : List String := f.fd.x :: (f.fd.params.names ++ itemsNames f.body)
+end FDefP
+
+structure WFFDefP (f : FDefP) : Prop where
+  specToks : SpecToks false f.specs
+  specVals : SpecVals f.specs
+  sawType : sawAfter false f.specs = true
+  params : WFPL f.fd.params
+  body : ∀ it ∈ f.body, WFItem it
+
+/-- **`_parse_external_declaration`** on a function definition with a prototype parameter list -/
+theorem funcDefP_ok (f : FDefP) (hwf : WFFDefP f) (hty : ∀ x ∈ f.names, env.ty x = false)
+    (s : PState) (rest : List Tk) (hs : SeesT env s (f.flat ++ rest)) (F : Nat) (hF : f.fuel ≤ F) :
+    ∃ s', run F .externalDeclaration s = .ok (f.vals s.idx) s' ∧ SeesT env s' rest ∧ s'.idx = s.idx + f.ntoks := by
+  obtain ⟨G, rfl⟩ : ∃ G, F = G + 1 := ⟨F - 1, by simp only [FDefP.fuel] at hF; omega⟩
+  simp only [FDefP.fuel] at hF
+  obtain ⟨t, r, hsp, hk0, hk1, hk2, hk3, hk4, hk5⟩ := specs_head hwf.specToks hwf.sawType
+  have hs0 : SeesT env s (f.specs ++ (f.fd.flat ++ (bodyFlat f.body ++ rest))) := by
+    simpa [FDefP.flat, List.append_assoc] using hs
+  have hs0' : SeesT env s ((t.1, t.2) :: (r ++ (f.fd.flat ++ (bodyFlat f.body ++ rest)))) := by rw [hsp] at hs0; simpa using hs0
+  obtain ⟨sa, hpa, hsa, _, hia, _⟩ := peek_spec s t.1 t.2 _ hs0'
+  obtain ⟨sb, hpb, hsb, hib⟩ := accept_other sa _ "SEMI" hsa (by
+    intro k' v' r' h; simp only [List.cons.injEq, Prod.mk.injEq] at h; rw [← h.1.1]; exact hk4)
+  have hsb' : SeesT env sb (f.specs ++ (f.fd.flat ++ (bodyFlat f.body ++ rest))) := by rw [hsp]; simpa using hsb
+  have hfo : FollowSpec (f.fd.flat ++ (bodyFlat f.body ++ rest)) := by
+    intro k v r' h
+    simp only [FD.flat, List.cons_append, List.cons.injEq, Prod.mk.injEq] at h
+    rw [← h.1.1]; decide
+  obtain ⟨s1, h1, hs1, hi1⟩ := specs_loop f.specs {} false false none sb _ G hwf.specToks hfo hsb' (by omega) (fun _ => rfl)
+  have eb : sb.idx = s.idx := by omega
+  rw [eb] at h1 hi1
+  have hne := sawAfter_ne_nil hwf.sawType
+  have hsome : (if (false || !f.specs.isEmpty) = true then some (foldSpec s.idx {} f.specs) else none) =
+      some (foldSpec s.idx {} f.specs) := by
+    cases hsp' : f.specs with
+    | nil => exact absurd hsp' hne
+    | cons t r => rfl
+  rw [hsome, hwf.sawType] at h1
+  have h1' : run G (.declSpecsLoop none false none) sb = .ok (some (foldSpec s.idx {} f.specs), true, firstCoord none s.idx f.specs) s1 := h1
+  -- scan: no stars, the identifier
+  have hs1' : SeesT env s1 (("ID", f.fd.x) :: (("LPAREN", "(") :: (f.fd.params.flat ++ [("RPAREN", ")")]) ++ (bodyFlat f.body ++ rest))) := by
+    simpa [FD.flat, List.append_assoc] using hs1
+  obtain ⟨G1, rfl⟩ : ∃ G1, G = G1 + 1 := ⟨G - 1, by omega⟩
+  obtain ⟨sc, hc, hsc, hic⟩ := scanStars_loop [] s1
+    (("ID", f.fd.x) :: (("LPAREN", "(") :: (f.fd.params.flat ++ [("RPAREN", ")")]) ++ (bodyFlat f.body ++ rest))) G1
+    (by intro q hq; cases hq)
+    (by intro k v r' h; simp only [List.cons.injEq, Prod.mk.injEq] at h; rw [← h.1.1]; exact ⟨by decide, by decide⟩)
+    (by simpa [starsFlat] using hs1') (by simp [starsNtoks]; omega)
+  obtain ⟨sd, hd, hsd, _, hid, _⟩ := peek_spec sc "ID" f.fd.x _ hsc
+  obtain ⟨s3, h3, hs3, _, hi3, _⟩ := advance_spec sd "ID" f.fd.x _ hsd
+  have hscan : run (G1 + 1) .scanDeclaratorNameInfo s1 = .ok (some "ID", false) s3 := by
+    show pScanDeclaratorNameInfo (run G1) s1 = _
+    simp [pScanDeclaratorNameInfo, StmtSkel.bnd, hc, hd, h3, StmtSkel.pur]
+  simp only [starsNtoks] at hic
+  obtain ⟨s4, h4, hs4, hi4⟩ := reset_to s1 s3 _ _ hs1 hs3 (by omega)
+  have hs4' : SeesT env s4 (f.fd.flat ++ ("LBRACE", "{") :: (itemsFlat f.body ++ [("RBRACE", "}")] ++ rest)) := by
+    simpa [bodyFlat, List.append_assoc] using hs4
+  obtain ⟨s5, h5, hs5, hi5⟩ := fdeclarator_ok f.fd hwf.params
+    (fun x hx => hty x (by simp only [FDefP.names, List.mem_cons, List.mem_append]; exact .inr (.inl hx))) s4 _ hs4' (G1 + 1) (by omega)
+  obtain ⟨s6, h6, hs6, hi6, _⟩ := peekType_spec s5 _ hs5
+  obtain ⟨s7, h7, hs7, hi7, _⟩ := peekType_spec s6 _ hs6
+  obtain ⟨s8, h8, hs8, hi8, _⟩ := peekType_spec s7 _ hs7
+  have hs8' : SeesT env s8 (bodyFlat f.body ++ rest) := by simpa [bodyFlat, List.append_assoc] using hs8
+  obtain ⟨s9, h9, hs9, hi9⟩ := compound_ok f.body hwf.body
+    (fun x hx => hty x (by simp only [FDefP.names, List.mem_cons, List.mem_append]; exact .inr (.inr hx))) s8 rest hs8' (G1 + 1) (by omega)
+  obtain ⟨p0, names, htn, hok⟩ := specOK_fold f.specs s.idx hwf.specToks hwf.specVals hwf.sawType
+  have e4 : s4.idx = s.idx + f.specs.length := by omega
+  rw [e4] at h5
+  obtain ⟨s10, h10, hs10, hi10⟩ := buildDeclarations_ok (foldSpec s.idx {} f.specs) p0 names hok (f.fd.di (s.idx + f.specs.length)) []
+    (by intro d hd; simp only [List.mem_singleton] at hd; subst hd; exact hty _ List.mem_cons_self) s9 rest hs9
+  refine ⟨s10, ?_, hs10, by simp only [FDefP.ntoks]; omega⟩
+  have htyne : (foldSpec s.idx {} f.specs).type.isEmpty = false := by rw [hok.type_eq]; rfl
+  have e8 : s8.idx = s.idx + f.specs.length + f.fd.ntoks := by omega
+  rw [e8] at h9
+  simp only [List.map_cons, List.map_nil] at h10
+  have hc' : declStart.contains t.1 = true := by simpa using hk0
+  have hreset : reset (s.idx + f.specs.length) s3 = .ok () s4 := by rw [← hi1]; exact h4
+  have horm : orM (peekIs "LBRACE") startsDeclaration s5 = .ok true s6 := by
+    simp [orM, peekIs, StmtSkel.bnd, h6, StmtSkel.pur]
+  have hsd' : startsDeclaration s6 = .ok false s7 := by
+    simp only [startsDeclaration, StmtSkel.bnd, h7, StmtSkel.pur, List.head?_cons, Option.map_some]
+    rfl
+  have hne8 : ((some "LBRACE" : Option String) != some "LBRACE") = false := rfl
+  have b1 : (t.1 == "PPHASH") = false := by simpa using hk1
+  have b2 : (t.1 == "PPPRAGMA" || t.1 == "_PRAGMA") = false := by simp [hk2, hk3]
+  have b5 : (t.1 == "_STATIC_ASSERT") = false := by simpa using hk5
+  have hnid : ((some "ID" : Option String) != some "ID") = false := rfl
+  have hco' : ∀ st, valCoord (f.fd.di (s.idx + f.specs.length)).raw "decl.coord" st = .ok (f.fd.di (s.idx + f.specs.length)).coord st :=
+    fun st => valCoord_node (f.fd.di (s.idx + f.specs.length)).raw_isNode _ st
+  have hinfo' : ({ decl := (f.fd.di (s.idx + f.specs.length)).raw } : DeclInfo) = (f.fd.di (s.idx + f.specs.length)).info := rfl
+  have hntd := hok.no_typedef
+  show pExternalDeclaration (run (G1 + 1)) s = _
+  simp only [pExternalDeclaration, StmtSkel.bnd, hpa, b1, b2, hpb, b5, hc', Bool.false_eq_true, ↓reduceIte, Option.isSome_none,
+    Bool.not_true, pDeclSpecs, h1', requireSpec, Bool.false_and, StmtSkel.pur, mark, hscan, hi1, hreset, hnid, h5, horm, hsd', h8,
+    List.head?_cons, Option.map_some, hne8, htyne, h9, buildFunctionDefinition, hco', hntd, hinfo', h10, FDefP.vals, htn]
+
 /-! ## translation units -/
 
 inductive Ext where
   | decl (dc : Dcl)
   | fdef (f : FDef)
+  | fdefp (f : FDefP)
 
 namespace Ext
 def flat : Ext → List Tk
   | .decl dc => dc.flat
   | .fdef f => f.flat
+  | .fdefp f => f.flat
 def ntoks : Ext → Nat
   | .decl dc => dc.ntoks
   | .fdef f => f.ntoks
+  | .fdefp f => f.ntoks
 def vals (n : Nat) : Ext → List Val
   | .decl dc => dc.vals n
   | .fdef f => f.vals n
+  | .fdefp f => f.vals n
 def fuel : Ext → Nat
   | .decl dc => dc.fuel + 2
   | .fdef f => f.fuel
+  | .fdefp f => f.fuel
 end Ext
 
 def WFExt : Ext → Prop
   | .decl dc => WFDcl dc
   | .fdef f => WFFDef f
+  | .fdefp f => WFFDefP f
 
 def extsFlat : List Ext → List Tk
   | [] => []
@@ -539,12 +662,16 @@ theorem ext_ok (e : Ext) (hwf : WFExt e) (hty : ∀ x, env.ty x = false) (s : PS
   cases e with
   | decl dc => exact extDcl_ok dc hwf (fun x _ => hty x) s rest hs F hF
   | fdef f => exact funcDef_ok f hwf ⟨hty _, fun x _ => hty x⟩ s rest hs F hF
+  | fdefp f => exact funcDefP_ok f hwf (fun x _ => hty x) s rest hs F hF
 
 theorem ext_head : ∀ (e : Ext), WFExt e → ∃ t r, e.flat = t :: r
   | .decl dc, hw => by obtain ⟨t, r, h, _⟩ := Dcl.head hw; exact ⟨t, r, h⟩
   | .fdef f, hw => by
     obtain ⟨t, r, hsp, _⟩ := specs_head hw.specToks hw.sawType
     exact ⟨t, r ++ (f.d.flat ++ bodyFlat f.body), by show Ext.flat (.fdef f) = _; simp only [Ext.flat, FDef.flat, hsp]; rfl⟩
+  | .fdefp f, hw => by
+    obtain ⟨t, r, hsp, _⟩ := specs_head hw.specToks hw.sawType
+    exact ⟨t, r ++ (f.fd.flat ++ bodyFlat f.body), by show Ext.flat (.fdefp f) = _; simp only [Ext.flat, FDefP.flat, hsp]; rfl⟩
 
 /-- **`_parse_translation_unit`** -/
 theorem tu_loop : ∀ (l : List Ext) (acc : List Val) (s : PState) (F : Nat), (∀ e ∈ l, WFExt e) → (∀ x, env.ty x = false) →
